@@ -47,6 +47,7 @@ func init() {
 			"35% of nested struct / *struct fields outside slice elements are EMBEDDED (anonymous) fields carrying a dials tag: about half keyed by their own Go name in another case (Limits `dials:\"limits\"`, MaxConn `dials:\"maxConn\"`), the others by a differently spelled tag; the static type embeds three such members. " +
 			"JSON documents are written by encoding/json (40%), by the harness's writer with every non-ASCII character escaped (25%, surrogate pairs above the BMP) or with any character - plain ASCII included, in keys and in values - possibly written as \\uXXXX / a short escape (35%); YAML, TOML and Cue double-quoted values now and then spell an ASCII character as \\uXXXX too. " +
 			"Each field gets, with probability 12% per format name, a tag of another library whose key merely ends in json / yaml / toml (geojson, goyaml, legacytoml, ...; arbitrary value), usually without a real tag of that format; the static type carries three. " +
+			"The Go NAME of 16% of the generated fields (never the document key, which the tags alone give) is spelled with letters outside ASCII: an upper-case initial from Latin-1 / Latin Extended / Greek / Cyrillic / Armenian / Deseret in front of the usual name (ÄMaxConn, ΩmaxConn; 11%), a non-ASCII letter at the end (MaxConné; 3%), or both (2%), in every position (leaf, nested struct, *struct, []struct and its element fields, embedded member with a differently spelled tag, dials:\"-\" field); the static type has four such fields (Ärger, Öffnung, *struct Éclair, and Ürl inside the nested / pointer / slice-element struct), also in the hand-written corpus. " +
 			"distinct_nontrivial counts distinct (schema signature, presence pattern) pairs of data trees with >= 3 present leaves.",
 		Assumptions: []string{
 			"the Cue decoder's format tag is `json` (cue.go copies dials tags to json tags); a `cue:\"...\"` tag is inert and is generated only as a decoy",
@@ -59,6 +60,7 @@ func init() {
 			"embedded struct members are generated only with a dials tag (a named member of the document in all four formats) and not inside slice elements, where go-toml alone falls back to filling an embedded struct VALUE whose key is absent from its parent's table",
 			"map[string]struct values are observed only, not judged: the statement does not say whether 'string-keyed maps' includes struct values (on the pinned tree their dials tags are not honoured; see observed_only_map_of_struct)",
 			"unknown document keys (the decoys) are expected to be ignored, which is what all four libraries do by default",
+			"a struct field whose Go name starts with an upper-case letter outside ASCII is an exported field (Go specification; reflect, encoding/json, yaml.v2, go-toml and cue all fill it), so a `dials` tag on it names a leaf like any other",
 			"trusted base: reflect, encoding/json (renderer and json.Valid), net.ParseIP, time.Format for producing literals",
 		},
 		MinDistinct: map[string]int{"quick": 15000, "thorough": 200000},
@@ -71,6 +73,7 @@ func init() {
 				"config_api_valid": 10000, "config_api_rejected": 18000, "selfcheck_ok": 2500, "fixed_corpus_documents": 4,
 				"fields_with_lookalike_foreign_tag_compared": 250000, "json_documents_with_unicode_escapes": 25000,
 				"large_documents_judged": 12, "embedded_members_compared": 60000, "embedded_members_keyed_by_own_name_compared": 30000,
+				"fields_with_non_ascii_go_name_compared": 150000, "fields_with_non_ascii_initial_go_name_compared": 120000,
 			},
 			"thorough": {
 				"decode_ok_json": 300000, "decode_ok_yaml": 300000, "decode_ok_toml": 300000, "decode_ok_cue": 300000,
@@ -80,6 +83,7 @@ func init() {
 				"config_api_valid": 150000, "config_api_rejected": 250000, "selfcheck_ok": 35000, "fixed_corpus_documents": 4,
 				"fields_with_lookalike_foreign_tag_compared": 2500000, "json_documents_with_unicode_escapes": 250000,
 				"large_documents_judged": 12, "embedded_members_compared": 800000, "embedded_members_keyed_by_own_name_compared": 400000,
+				"fields_with_non_ascii_go_name_compared": 1500000, "fields_with_non_ascii_initial_go_name_compared": 1200000,
 			},
 		},
 		Plan: func(tier string) fw.Plan {
@@ -168,6 +172,11 @@ func c13DiffKey(prefix string, fm c13Fmt, d c13Diff) string {
 	}
 	if d.elem {
 		k += ":in-slice-elem"
+	}
+	if d.nonASCIIInitial {
+		k += ":go-name-with-non-ascii-initial"
+	} else if d.nonASCII {
+		k += ":go-name-with-non-ascii-letter"
 	}
 	return k
 }
@@ -317,6 +326,8 @@ func (c *c13Run) judgeValid(tree *c13Val) [4]c13Result {
 		w.Count("embedded_members_compared", m.embSeen)
 		w.Count("fields_with_lookalike_foreign_tag_compared", m.foreignSeen)
 		w.Count("embedded_members_keyed_by_own_name_compared", m.embFoldSeen)
+		w.Count("fields_with_non_ascii_go_name_compared", m.nonASCIISeen)
+		w.Count("fields_with_non_ascii_initial_go_name_compared", m.nonASCIIInitialSeen)
 		if len(m.diffs) > 0 {
 			if c.rendererOK(fm, doc, tree) {
 				c.reportDiffs("", fm, doc, m.diffs)
